@@ -417,7 +417,7 @@ def jobs(tier, seed):
         catalog.E("sink", j=2), catalog.E("sink", j=1)]}
     for s in [catalog.w_circ_loop(), catalog.w_circ_mass(), gas_heat]:
         out.append({"name": "e2e-seq/%s" % s["name"], "kind": "e2e", "spec": s, "pfmode": "sequential"})
-    for s in [catalog.w_line3(), catalog.w_mesh4(), catalog.g_line3()]:
+    for s in [catalog.w_line3(), catalog.w_mesh4(), catalog.g_line3(), catalog.w_components(), catalog.g_components()]:
         for numba in (False, True):
             out.append({"name": "update/%s/%s" % (s["name"], "numba" if numba else "numpy"), "kind": "update", "spec": s,
                         "numba": numba})
